@@ -293,8 +293,14 @@ pub fn minimise_with(
     let mut cur_v = want.clone();
     // (under Miri every judgement costs seconds: report the find almost as it is)
     let mut budget: i64 = if cfg!(miri) { budget.min(30) } else { budget };
+    // wall-clock cap (very long schedules - C01's soak shapes - cost up to a second per
+    // judgement): it bounds the effort of the minimiser, never a verdict
+    let t_start = Instant::now();
     let try_candidate = |cand: &Scenario, budget: &mut i64| -> Option<Violation> {
         *budget -= 1;
+        if t_start.elapsed().as_secs() > 120 {
+            *budget = 0;
+        }
         let v = judge(cand);
         if same(&v, want) {
             v
@@ -410,7 +416,7 @@ pub fn write_replay(args: &Args, sc: &Scenario, v: &Violation, original_ops: usi
     );
     // what the real code answered, for the reader (std build; informational)
     let mut answers: Vec<J> = Vec::new();
-    if sc.stream.is_none() && !NO_ANSWERS.load(std::sync::atomic::Ordering::Relaxed) {
+    if sc.stream.is_none() && sc.ops.len() <= 2000 && !NO_ANSWERS.load(std::sync::atomic::Ordering::Relaxed) {
         props::run_lines(
             nodes::Build::Std,
             sc,
@@ -990,7 +996,85 @@ fn child_dies(argv: &[String]) -> Option<bool> {
     })
 }
 
+/// signals that mean "the process destroyed itself": the harness has no `unsafe` code, so they
+/// are attributable to the code under test (SIGKILL - the OOM killer, an operator - is not)
+fn is_fault_signal(st: &std::process::ExitStatus) -> bool {
+    use std::os::unix::process::ExitStatusExt;
+    matches!(st.signal(), Some(4) | Some(6) | Some(7) | Some(8) | Some(11)) || matches!(st.code(), Some(c) if c >= 126)
+}
+
+/// A death that does not reproduce from one schedule alone (it needs the other workers of the
+/// batch: memory corrupted through state shared between parser instances). The replay file then
+/// describes the batch range instead of a schedule; replaying it re-runs that range (up to five
+/// times) and reports whether the worker dies again.
+fn report_unisolated_death(args: &Args, prop: &str, st: &std::process::ExitStatus, first_run: u64, runs: u64, why: &str) -> i32 {
+    let dir = std::env::var("AISSIM_REPLAY_DIR").unwrap_or_else(|_| format!("{}/replays", verif_dir()));
+    let _ = std::fs::create_dir_all(&dir);
+    let path = format!("{}/{}-{}-batch-{}-{}.json", dir, prop, args.seed, first_run, runs);
+    let detail = format!(
+        "the worker process executing runs {}..{} of seed {} on {} threads was killed ({:?}) - memory corruption, abort or stack overflow in the code under test - and {}: the death needs several parser instances running at the same time (state shared between them)",
+        first_run, first_run + runs, args.seed, args.threads, st, why
+    );
+    let j = J::obj()
+        .set("property", J::str(prop))
+        .set(
+            "violation",
+            J::obj()
+                .set("property", J::str(prop))
+                .set("clause", J::str("process-killed"))
+                .set("site", J::str("not-reproducible-from-one-schedule"))
+                .set("detail", J::Str(detail.clone())),
+        )
+        .set(
+            "batch",
+            J::obj()
+                .set("seed", J::Str(args.seed.to_string()))
+                .set("tier", J::Str(args.tier.clone()))
+                .set("first_run", J::Int(first_run as i64))
+                .set("runs", J::Int(runs as i64))
+                .set("threads", J::Int(args.threads as i64)),
+        )
+        .set("replay_cmd", J::Str(format!("./check {} --replay {}", prop, path)));
+    let _ = std::fs::write(&path, j.to_string_pretty());
+    println!("VIOLATION property={} replay={}", prop, path);
+    println!("  clause=process-killed site=not-reproducible-from-one-schedule {}", detail);
+    1
+}
+
+/// replay of a batch descriptor written by `report_unisolated_death`
+fn replay_batch(args: &Args, path: &str, j: &J) -> i32 {
+    let b = j.get("batch").unwrap();
+    let g = |k: &str| -> String {
+        match b.get(k) {
+            Some(J::Str(s)) => s.clone(),
+            Some(J::Int(i)) => i.to_string(),
+            _ => "0".into(),
+        }
+    };
+    let argv: Vec<String> = vec![
+        "check".into(), args.prop.clone(), "--seed".into(), g("seed"), "--tier".into(), g("tier"),
+        "--first-run".into(), g("first_run"), "--runs".into(), g("runs"), "--threads".into(), g("threads"),
+        "--no-evidence".into(), "--no-extras".into(),
+    ];
+    for attempt in 1..=5 {
+        if child_dies(&argv).unwrap_or(false) {
+            println!("VIOLATION property={} replay={}", args.prop, path);
+            println!("  clause=process-killed site=not-reproducible-from-one-schedule the worker executing this batch range was killed again (attempt {} of 5)", attempt);
+            return 1;
+        }
+    }
+    println!("replay {}: the batch range ran five times without the worker being killed", path);
+    0
+}
+
 pub fn supervise(args: &Args, argv: &[String]) -> i32 {
+    if let Some(path) = &args.replay {
+        if let Some(j) = std::fs::read_to_string(path).ok().and_then(|s| json::parse(&s).ok()) {
+            if j.get("batch").is_some() {
+                return replay_batch(args, path, &j);
+            }
+        }
+    }
     let exe = match std::env::current_exe() {
         Ok(e) => e,
         Err(e) => {
@@ -1066,8 +1150,11 @@ pub fn supervise(args: &Args, argv: &[String]) -> i32 {
     };
     // find the first run whose execution kills the process
     let (mut lo, mut len) = (args.first_run, total);
-    if !range_dies(lo, len) {
-        eprintln!("check: HARNESS ERROR: the worker died once but not when re-run; not reproducible");
+    if !range_dies(lo, len) && !range_dies(lo, len) && !range_dies(lo, len) {
+        if is_fault_signal(&st) {
+            return report_unisolated_death(args, prop.id(), &st, lo, len, "three re-runs of the whole range survived");
+        }
+        eprintln!("check: HARNESS ERROR: the worker died once ({:?}) but not when re-run; not reproducible", st);
         return 2;
     }
     while len > 1 {
@@ -1096,6 +1183,11 @@ pub fn supervise(args: &Args, argv: &[String]) -> i32 {
         child_dies(&["check".into(), args.prop.clone(), "--replay".into(), tmp.clone()]).unwrap_or(false)
     };
     if !replay_dies(&sc) {
+        if is_fault_signal(&st) {
+            // (the bisection above followed deaths that may have been different ones each time:
+            // describe the whole range, which is what was observed)
+            return report_unisolated_death(args, prop.id(), &st, args.first_run, total, "no single run of the range kills a process when replayed alone");
+        }
         eprintln!(
             "check: HARNESS ERROR: run {} kills the worker inside a batch but not when replayed alone",
             run
